@@ -15,6 +15,7 @@
 """
 import json
 import math
+import re
 import struct
 import concurrent.futures as cf
 
@@ -182,7 +183,7 @@ def problem_lines(su, totals_override=None):
     return lines
 
 
-def close(a, b, rel=1e-12, absol=1e-300):
+def close(a, b, rel=1e-12, absol=1e-16):
     if a == b:
         return True
     if math.isnan(a) or math.isnan(b) or math.isinf(a) or math.isinf(b):
@@ -329,45 +330,88 @@ def direct_oracle(su, model, totals, tol_print):
     return bad
 
 
-def eval_case(ctx, exe, case, oracle_bits=11, want_output=False):
-    """run one generated problem on the real code and through the model; returns a result dict"""
-    r = ctx.run_harness(exe, harness_text(str(vlib.REPO / "database" / case["db"]), case["input"], oracle_bits, 1 if want_output else 0),
-                        timeout=600)
-    out = {"status": "ok", "corr": [], "viol": [], "nmodels": 0, "stats": {}}
+def pmodel_retry(ctx, text, tries=30):
+    """pmodel is relinked whenever anybody rebuilds a driver: wait for it instead of failing"""
+    import time
+    for k in range(tries):
+        try:
+            return ctx.pmodel("inverse", text)
+        except (FileNotFoundError, PermissionError, OSError):
+            time.sleep(2)
+        except RuntimeError as ex:
+            if "not implemented" in str(ex) or k == tries - 1:
+                raise
+            time.sleep(2)
+    return ctx.pmodel("inverse", text)
+
+
+def range_errors_per_model(outtext, nmodels):
+    """number of 'Error in subroutine range' messages printed while the ranges of model k were computed"""
+    ends = [m.start() for m in re.finditer(r"Solution fractions:", outtext)]
+    starts = [m.start() for m in re.finditer(r"Sum of residuals \(epsilons", outtext)]
+    res = []
+    for k in range(nmodels):
+        if k >= len(ends):
+            res.append(None)
+            continue
+        lo = starts[k - 1] if k > 0 and k - 1 < len(starts) else 0
+        res.append(len(re.findall(r"Error in subroutine range", outtext[lo:ends[k]])))
+    return res
+
+
+def eval_case(ctx, exe, case, oracle_bits=11):
+    """run one problem on the real code and through the model; returns a result dict
+    viol: list of dicts {kind, model, text}; corr: list of correspondence differences"""
+    r = ctx.run_harness(exe, harness_text(str(vlib.REPO / "database" / case["db"]), case["input"], oracle_bits, 1), timeout=900)
+    out = {"status": "ok", "corr": [], "viol": [], "findings": [], "nmodels": 0, "stats": {}}
     if r.returncode != 0:
         out["status"] = "crash"
-        out["viol"].append("harness exit code %s: %s" % (r.returncode, r.stderr[-300:]))
+        out["viol"].append({"kind": "crash", "model": -1, "text": "harness exit code %s: %s" % (r.returncode, r.stderr[-300:])})
         return out
     res = parse_harness(r.stdout)
     res["selrows"] = parse_selrows(r.stdout)
     out["rc"] = res["rc"]
     out["err"] = res["err"][-400:]
+    if not res["complete"]:
+        out["status"] = "crash"
+        out["viol"].append({"kind": "crash", "model": -1, "text": "harness output incomplete"})
+        return out
     if not res["setups"]:
         out["status"] = "no-setup"
         return out
     su = res["setups"][0]
     o = su["opts"]
     out["stats"].update(nsol=o["nsol"], nelt=o["nelt"], nphase=o["nphase"], nredox=o["nredox"], minimal=o["minimal"], range=o["range"],
-                        mp=o["mp"], nmodels=len(su["models"]), rc=res["rc"], oracle=su["oracle"] is not None)
+                        mp=o["mp"], nmodels=len(su["models"]), rc=res["rc"], oracle=su["oracle"] is not None, toler=o["toler"],
+                        cl1mp=o.get("cl1mp", 0))
     if o["nisotopes"]:
         out["status"] = "isotopes"
         return out
     if res["rc"] != 0:
-        out["status"] = "run-error"          # outside "completes without error": counted, not judged further than set-up
+        out["status"] = "run-error"          # outside "completes without error": set-up is still compared
     # ---- tie A: matrix
     base = problem_lines(su)
     totals = indep_totals(res, su)
     cmds = list(base) + ["matrix"]
     toler = o["toler"]
-    tcheck = max(1e-9, 1000 * toler)
+    t1 = max(1e-8, 1e4 * toler)
+    t2 = max(1e-6, 1e4 * toler)
     if totals is not None:
-        for q, s in enumerate(su["solns"]):
-            totals[q]["Alkalinity"] = totals[q].get("Alkalinity", 0.0)
         cmds += problem_lines(su, totals)
-    for m in su["models"]:
-        cmds.append("check %s X %s MIN %s MAX %s" % (d2h(tcheck), " ".join(map(d2h, m["X"])), " ".join(map(d2h, m["MIN"])),
-                                                     " ".join(map(d2h, m["MAX"]))))
-    nbits = o["nphase"] + o["nsol"]
+    capped = {}
+    for k, m in enumerate(su["models"]):
+        mn, mx = list(m["MIN"]), list(m["MAX"])
+        if o["range"]:
+            # documented limit of -range: the LPs minimise |x -/+ range_max|, so a value beyond range_max is not bracketed
+            for c in list(range(o["nsol"])) + [su["dims"]["col_phases"] + i for i in range(o["nphase"])]:
+                v = m["X"][c]
+                if abs(v) > abs(o["range_max"]):
+                    if not (mn[c] <= v <= mx[c]):
+                        capped.setdefault(k, []).append("%s %.6g not in [%.6g, %.6g], range_max %g" % (su["colnames"][c], v, mn[c], mx[c], o["range_max"]))
+                    mn[c] = mx[c] = v
+        vec = "X %s MIN %s MAX %s" % (" ".join(map(d2h, m["X"])), " ".join(map(d2h, mn)), " ".join(map(d2h, mx)))
+        cmds.append("check %s %s" % (d2h(t1), vec))
+        cmds.append("check %s %s" % (d2h(t2), vec))
     forced = 0
     for i, ph in enumerate(su["phases"]):
         if ph["force"]:
@@ -377,8 +421,9 @@ def eval_case(ctx, exe, case, oracle_bits=11, want_output=False):
             forced |= 1 << (o["nphase"] + q)
     if su["oracle"] is not None and not su["oracle_aborted"]:
         cmds.append("search %d %d %d %d %d %s" % (o["nphase"], o["nsol"], o["minimal"], o["range"], forced, " ".join(su["oracle"])))
-    mout = ctx.pmodel("inverse", "\n".join(cmds) + "\n")
+    mout = pmodel_retry(ctx, "\n".join(cmds) + "\n")
     diffs = compare_matrix(su, mout)
+    out["stats"]["matrix_cells"] = sum(len(c) for _, c in su["rows"])
     if diffs:
         out["corr"].append({"what": "setup_inverse matrix differs from setupMatrix", "diffs": [list(map(str, d)) for d in diffs[:8]],
                             "ndiffs": len(diffs)})
@@ -393,28 +438,38 @@ def eval_case(ctx, exe, case, oracle_bits=11, want_output=False):
                     T[nm] = T.get(nm, 0.0) + val
             T["Alkalinity"] = s["alk"]
             for el in su["elts"]:
-                if el["isE"]:
+                if el["isE"] or el["name"] in ("O(0)", "H(0)"):
                     continue
                 a, b = T.get(el["name"], 0.0), totals[q].get(el["name"], 0.0)
-                if max(abs(a), abs(b)) > 1e-13:
+                if max(abs(a), abs(b)) > 1e-12:
                     worst = max(worst, abs(a - b) / max(abs(a), abs(b)))
         out["stats"]["totals_reldiff"] = worst
         if worst > 1e-6:
             out["corr"].append({"what": "totals used by setup_inverse differ from independent speciation", "rel": worst})
     # ---- tie B: every reported model
     checks = [l for l in mout if l.startswith("CHECK")]
-    tol_print = 2e-12 if any("%20.12e" in p[2] for m in su["models"] for p in m["punch"][:1]) else 1e-4
+    hp = any("e" in p[2] and len(p[2].strip().split("e")[0]) > 9 for m in su["models"] for p in m["punch"][:1])
+    tol_print = 2e-11 if hp else 1e-4
+    rerr = range_errors_per_model(res["out"], len(su["models"])) if o["range"] else [0] * len(su["models"])
+    out["stats"]["range_lp_errors"] = sum(x or 0 for x in rerr)
+    ns, np_ = o["nsol"], o["nphase"]
     for k, m in enumerate(su["models"]):
         out["nmodels"] += 1
-        line = checks[k].split() if k < len(checks) else ["CHECK", "missing"]
-        st = {"mb": h2d(line[3]) if len(line) > 3 else None, "charge": h2d(line[5]) if len(line) > 5 else None,
-              "water": h2d(line[7]) if len(line) > 7 else None}
-        out["stats"].setdefault("worst_mb", 0.0)
-        out["stats"]["worst_mb"] = max(out["stats"]["worst_mb"], st["mb"] or 0.0)
-        if line[1] != "ok":
-            out["viol"].append("model %d (bits %d): checkModel fails: %s" % (k, m["bits"], " ".join(line[8:])[:300]))
+        mv = []
+        l1 = checks[2 * k].split() if 2 * k < len(checks) else ["CHECK", "missing"]
+        l2 = checks[2 * k + 1].split() if 2 * k + 1 < len(checks) else ["CHECK", "missing"]
+        if len(l1) > 7:
+            out["stats"]["worst_mb"] = max(out["stats"].get("worst_mb", 0.0), h2d(l1[3]))
+            out["stats"]["worst_charge"] = max(out["stats"].get("worst_charge", 0.0), h2d(l1[5]))
+        if l1[1] == "missing" or l2[1] == "missing":
+            out["corr"].append({"what": "pmodel gave no CHECK line", "model": k})
+        for cl in l1[8:]:
+            if not cl.startswith("range"):
+                mv.append({"kind": "sign" if cl.startswith("sign") else cl.split(":")[0], "model": k, "text": "checkModel clause " + cl})
+        for cl in l2[8:]:
+            if cl.startswith("range"):
+                mv.append({"kind": "range", "model": k, "text": "checkModel clause " + cl})
         # punched values = internal values
-        ns, np_ = o["nsol"], o["nphase"]
         exp = [m["error"] / 0.0009765625, m["scaled_error"], m["max_pct"]]
         for q in range(ns):
             exp += [m["X"][q], m["MIN"][q], m["MAX"][q]]
@@ -433,7 +488,6 @@ def eval_case(ctx, exe, case, oracle_bits=11, want_output=False):
                 pv = float("nan")
             if not (pv == dval or abs(pv - dval) <= 1e-4 * abs(dval) + 1e-300) and not (math.isnan(pv) and math.isnan(dval)):
                 out["corr"].append({"what": "rendered selected-output cell differs from the value", "cell": name, "text": sval, "value": dval})
-        # bits vs non-zero pattern
         nz = 0
         for q in range(ns):
             if abs(m["X"][q]) > 1e-9:
@@ -443,9 +497,24 @@ def eval_case(ctx, exe, case, oracle_bits=11, want_output=False):
                 nz |= 1 << i
         if nz != m["bits"]:
             out["corr"].append({"what": "saved model bits differ from the non-zero pattern of the reported vector", "bits": m["bits"], "nz": nz})
-        bad = direct_oracle(su, m, totals, tol_print)
-        for b in bad:
-            out["viol"].append("model %d (bits %d): %s" % (k, m["bits"], b))
+        for b in direct_oracle(su, m, totals, tol_print):
+            kind = "range" if b.startswith("range") else ("sign" if "-only" in b else ("alpha" if "fraction" in b else "element"))
+            mv.append({"kind": kind, "model": k, "text": b})
+        if k in capped:
+            out["findings"].append({"key": "range-cap", "model": k, "bits": m["bits"], "text": "; ".join(capped[k])[:300]})
+        # known classes: (1) cl1 returns kode 0 with a violated dissolve/precipitate constraint; (2) the range LP failed
+        if any(v["kind"] == "sign" for v in mv):
+            out["findings"].append({"key": "cl1-sign-check-dead", "model": k, "bits": m["bits"],
+                                    "text": "; ".join(v["text"] for v in mv if v["kind"] == "sign")[:300]})
+            mv = [v for v in mv if v["kind"] not in ("sign", "range")]
+        if rerr[k] is None and any(v["kind"] == "range" for v in mv):
+            out["corr"].append({"what": "printed output has no table for this model; range errors cannot be attributed", "model": k})
+        if rerr[k]:
+            if any(v["kind"] == "range" for v in mv):
+                out["findings"].append({"key": "range-lp-error", "model": k, "bits": m["bits"], "messages": rerr[k],
+                                        "text": "; ".join(v["text"] for v in mv if v["kind"] == "range")[:300]})
+            mv = [v for v in mv if v["kind"] != "range"]
+        out["viol"] += mv
     # selected-output string rows = punched strings
     sel = res["seltabs"].get(1, "")
     rows = [ln for ln in sel.split("\n") if ln.strip()]
@@ -471,14 +540,227 @@ def eval_case(ctx, exe, case, oracle_bits=11, want_output=False):
         real = (reported, f.get("count_good"), f.get("count_minimal"), f.get("count_bad"), f.get("count_calls"))
         pred = (rep, len(good), len(mini), nbad, calls)
         out["stats"]["search_checked"] = True
+        out["stats"]["oracle_ok"] = oracle_ok(su["oracle"], ns + np_)
         if real != pred:
             out["corr"].append({"what": "search differs from solve_inverse", "real": real, "model": pred})
     if o["minimal"]:
         for a in range(len(reported)):
             for b in range(len(reported)):
                 if a != b and reported[a] | reported[b] == reported[b] and reported[a] != reported[b]:
-                    out["viol"].append("-minimal: model bits %d strictly contained in model bits %d" % (reported[a], reported[b]))
+                    out["viol"].append({"kind": "antichain", "model": b,
+                                        "text": "-minimal: model bits %d strictly contains model bits %d" % (reported[b], reported[a])})
         if len(set(reported)) != len(reported):
-            out["viol"].append("-minimal: a model was reported twice: %s" % reported)
+            out["viol"].append({"kind": "antichain", "model": -1, "text": "-minimal: a model was reported twice: %s" % reported})
     out["reported"] = reported
     return out
+
+
+def oracle_ok(table, nbits):
+    """do the hypotheses of minimal_antichain (OracleOK) hold for the tabulated LP oracle?"""
+    fin = 1 << (nbits - 1)
+    ent = []
+    for w in table:
+        a, b = w.split(":")
+        ent.append((a != "0", int(b)))
+    def o(mask):
+        return ent[mask % fin] if mask & fin else (False, 0)
+    feas = [m for m in range(fin) if ent[m][0]]
+    for m in feas:
+        s = m | fin
+        nz = ent[m][1]
+        if nz | s != s or not nz & fin or nz >= (1 << nbits) or not o(nz)[0]:
+            return False
+    # monotone: every superset (one more bit) of a feasible mask is feasible
+    for m in feas:
+        for i in range(nbits - 1):
+            if not m & (1 << i) and not ent[m | (1 << i)][0]:
+                return False
+    return True
+
+
+# ----------------------------------------------------------------------------------------------- run / replay
+SEL = "SELECTED_OUTPUT 1\n -reset false\n -inverse_modeling true\n"
+
+
+def seed_cases():
+    """shipped examples ex16 (phreeqc.dat), ex17 (pitzer.dat), ex18 (isotopes: outside the model, counted only)"""
+    out = []
+    exd = vlib.REPO / "phreeqc3-examples"
+    for name, db in (("ex16", "phreeqc.dat"), ("ex17", "pitzer.dat"), ("ex18", "phreeqc.dat")):
+        f = exd / name
+        if f.exists():
+            txt = f.read_text(errors="replace")
+            txt = re.sub(r"^INVERSE_MODELING", SEL + "INVERSE_MODELING", txt, count=1, flags=re.M)
+            out.append({"db": db, "input": txt, "meta": {"scenario": name, "flags": {}, "nphases": 0}})
+            if name == "ex16":
+                out.append({"db": db, "input": txt.replace("-range", "-range\n        -minimal"), "meta": {"scenario": "ex16-minimal", "flags": {"minimal": True}, "nphases": 9}})
+                out.append({"db": db, "input": txt.replace("-range", "-multiple_precision true"), "meta": {"scenario": "ex16-mp", "flags": {"mp": True}, "nphases": 9}})
+    return out
+
+
+def shrink_case(ctx, exe, case, kind):
+    """remove lines of the INVERSE_MODELING block while a violation of the same kind remains"""
+    lines = case["input"].split("\n")
+    try:
+        i0 = next(i for i, l in enumerate(lines) if l.startswith("INVERSE_MODELING"))
+    except StopIteration:
+        return case
+    head, block = lines[:i0 + 2], lines[i0 + 2:]
+
+    def fails(sub):
+        c = dict(case, input="\n".join(head + sub))
+        try:
+            r = eval_case(ctx, exe, c, oracle_bits=0)
+        except Exception:
+            return False
+        return any(v["kind"] == kind for v in r["viol"])
+    keep = [l for l in block if l.strip() in ("END", "-phases", "-balances")]
+    small = vlib.shrink_list(block, lambda sub: all(k in sub for k in keep) and fails(sub), max_iter=120)
+    return dict(case, input="\n".join(head + small))
+
+
+def run(ctx):
+    ok = ctx.prove(["PhreeqcVerif.Properties.C18"])
+    ctx.build_lib()
+    exe = ctx.build_harness("ph_inverse")
+    n = ctx.n(110, 2500)
+    if not ok:
+        n = max(n, 2500)
+    cases = seed_cases()
+    for i in range(n):
+        cases.append(gen.gen_problem(ctx.rng, big=(i % 5 == 0)))
+    hist = {"status": {}, "scenario": {}, "nphase": {}, "nsol": {}, "models_per_case": {}, "flags": {}, "noise": {}, "toler": {}}
+
+    def bump(h, k):
+        hist[h][str(k)] = hist[h].get(str(k), 0) + 1
+    results = []
+    with cf.ThreadPoolExecutor(max_workers=max(2, vlib.NCPU - 2)) as ex:
+        futs = [ex.submit(eval_case, ctx, exe, c, 11 if ctx.tier == "quick" else 12) for c in cases]
+        for c, f in zip(cases, futs):
+            results.append((c, f.result()))
+    nmodels = nmat = nsearch = nrangeerr = noracle_ok = nindep = 0
+    nontrivial = set()
+    corr_broken = []
+    seen_findings = {}
+    for c, r in results:
+        bump("status", r["status"])
+        meta = c.get("meta", {})
+        bump("scenario", meta.get("scenario"))
+        for k in meta.get("flags", {}):
+            bump("flags", k)
+        for nz in meta.get("noise", []):
+            bump("noise", nz[2])
+        if not meta.get("noise"):
+            bump("noise", "none")
+        st = r["stats"]
+        if "nphase" in st:
+            bump("nphase", st["nphase"])
+            bump("nsol", st["nsol"])
+            bump("toler", st["toler"])
+            nmat += 1
+            bump("models_per_case", min(r["nmodels"], 10))
+        nmodels += r["nmodels"]
+        nsearch += 1 if st.get("search_checked") else 0
+        noracle_ok += 1 if st.get("oracle_ok") else 0
+        nindep += 1 if "totals_reldiff" in st else 0
+        nrangeerr += st.get("range_lp_errors", 0)
+        if r["nmodels"]:
+            nontrivial.add(hash(c["input"]))
+        if r["nmodels"] and len(ctx.cov["samples"]) < 3:
+            ctx.sample({"scenario": meta.get("scenario"), "inverse_block": c["input"][c["input"].find("INVERSE_MODELING"):][:700],
+                        "reported_bits": r.get("reported"), "worst_mole_balance_residual": st.get("worst_mb")})
+        for fnd in r["findings"]:
+            if fnd["key"] in seen_findings:
+                seen_findings[fnd["key"]] += 1
+                continue
+            seen_findings[fnd["key"]] = 1
+            what = {"cl1-sign-check-dead": "a reported model violates a dissolve/precipitate constraint (cl1 returned kode 0; its "
+                                           "dis/pre post-check compares against x_arg which is never filled)",
+                    "range-cap": "a reported value beyond the -range limit (default 1000) lies outside its reported min..max "
+                                 "(the range LPs minimise |x -/+ range_max|; documented limit)",
+                    "range-lp-error": "range(): cl1 returned kode != 0 ('Error in subroutine range'), min/max are reported anyway "
+                                      "and do not bracket the value"}[fnd["key"]]
+            ctx.finding(fnd["key"], what + ": " + fnd["text"], {"db": c["db"], "input": c["input"], "finding": fnd})
+        if r["viol"] and not ctx.violations:
+            kind = r["viol"][0]["kind"]
+            small = shrink_case(ctx, exe, c, kind) if kind != "crash" else c
+            r2 = eval_case(ctx, exe, small, 0)
+            v = [x for x in r2["viol"] if x["kind"] == kind] or r["viol"]
+            if not [x for x in r2["viol"] if x["kind"] == kind]:
+                small = c
+            ctx.violation("reported inverse model is not admissible (%s): %s" % (kind, v[0]["text"]),
+                          {"db": small["db"], "input": small["input"], "violations": v[:10], "meta": meta})
+        if r["corr"]:
+            corr_broken.append((c, r))
+    ctx.cov["evaluations"] = nmodels + nmat
+    ctx.cov["distinct_nontrivial"] = len(nontrivial)
+    ctx.cov["problems"] = len(cases)
+    ctx.cov["matrices_compared"] = nmat
+    ctx.cov["models_checked"] = nmodels
+    ctx.cov["searches_reproduced"] = nsearch
+    ctx.cov["oracle_tables_satisfying_OracleOK"] = noracle_ok
+    ctx.cov["problems_with_independent_totals"] = nindep
+    ctx.cov["range_lp_error_messages"] = nrangeerr
+    ctx.cov["input_distribution"] = hist
+    ctx.cov["finding_instances"] = seen_findings
+    ctx.cov["traces_validated_against_impl"] = nmat
+    ctx.cov["multiple_precision_note"] = "INVERSE_CL1MP is not compiled in: -multiple_precision runs double-precision cl1 with toler = mp_tolerance"
+    ctx.cov["rule"] = ("seeded problems: initial solution(s) + forward REACTION/MIX steps (exact model exists), optional noise salt inside/outside "
+                       "the uncertainty, 2-12 candidate phases with dis/pre/force, global / per-solution / per-element (relative and absolute) "
+                       "uncertainties, pH uncertainty, -range, -minimal, -tolerance, -mineral_water, -multiple_precision, -u_water, "
+                       "-force_solutions; plus ex16/ex17/ex18. evaluations = matrices compared + reported models checked; non-trivial = "
+                       "distinct inputs with at least one reported model. Problems that stop with an ERROR are counted (status) and only "
+                       "their set-up matrix is compared.")
+    if corr_broken and not ctx.violations:
+        c, r = corr_broken[0]
+        ctx.violation("model and implementation disagree (%s) and no reported model failed the direct oracle" % r["corr"][0]["what"],
+                      {"db": c["db"], "input": c["input"], "correspondence": r["corr"][:5], "cases_disagreeing": len(corr_broken)},
+                      found_input=False)
+    if not ok and not ctx.violations:
+        ctx.violation("proof obligation of C18 no longer checks and no failing input was found",
+                      {"broken": ctx.proof_broken}, found_input=False)
+
+
+def replay(ctx, data):
+    ctx.prove(["PhreeqcVerif.Properties.C18"])
+    ctx.build_lib()
+    exe = ctx.build_harness("ph_inverse")
+    if "input" not in data:
+        print("replay: nothing to run (", data.get("what"), ")")
+        return
+    r = eval_case(ctx, exe, {"db": data.get("db", "phreeqc.dat"), "input": data["input"]})
+    print("replay status:", r["status"], "models:", r["nmodels"], "reported bits:", r.get("reported"))
+    for v in r["viol"]:
+        print("  violation:", v)
+    for f in r["findings"]:
+        print("  finding:", f)
+    for c in r["corr"]:
+        print("  correspondence:", str(c)[:400])
+    for f in r["findings"]:
+        ctx.finding(f["key"], f["text"], {"db": data.get("db", "phreeqc.dat"), "input": data["input"], "finding": f})
+    if r["viol"]:
+        ctx.violation("replayed problem still yields an inadmissible reported model: " + r["viol"][0]["text"],
+                      {"db": data.get("db", "phreeqc.dat"), "input": data["input"], "violations": r["viol"][:10]})
+    elif r["corr"]:
+        ctx.violation("replayed problem: model and implementation still disagree: " + r["corr"][0]["what"],
+                      {"db": data.get("db", "phreeqc.dat"), "input": data["input"], "correspondence": r["corr"][:5]}, found_input=False)
+
+
+MANIFEST = dict(
+    technique="Lean 4 theorems on an executable Rat model of setup_inverse / solve_inverse / minimal_solve / range; in-process "
+              "correspondence (friend access at punch_model_heading and punch_model) of the constraint matrix, of every reported model "
+              "and of the subset search",
+    text="Theorems (Properties/C18.lean): checkModel_sound/_complete (executable admissibility check <-> declarative Admissible), "
+         "matrix_encodes_admissible (any vector satisfying the rows and sign constraints of setupMatrix decodes to exact mole balance per "
+         "element row, adjustments within bounds, fractions >= 0, final fraction 1, dissolve/precipitate signs), adjustment_within_declared, "
+         "mbRes_delta_form, minimal_antichain(_fold) (any enumeration order, any exact LP oracle: reported -minimal models form an antichain; "
+         "proved on the actual loop structure by invariant), range_contains_value. Obligations over generated data: my_array/delta of the real "
+         "setup_inverse = setupMatrix/signOf on the parsed problem at 1e-12; every reported model (inv_delta1, min_delta, max_delta read "
+         "in-process) passes checkModel with totals from an independent speciation; punched cells = internal values = selected-output text; "
+         "direct per-chemical-element oracle on the punched values with formula stoichiometry; search(oracle table) = reported sequence and "
+         "counters of solve_inverse; -minimal antichain on reported bit sets.",
+    note="Trusted: Lean kernel, harness/ph_inverse.cpp (friend access, resolution of reaction tokens to rows), tools/props/c18.py "
+         "(tolerances: matrix 1e-12 rel, balances max(1e-8, 1e4*toler), ranges max(1e-6, 1e4*toler)). cl1 is an oracle (not verified); "
+         "isotope rows/columns are not modelled (ex18-type problems are counted only); INVERSE_CL1MP is not compiled in. Findings on the "
+         "unchanged tree: cl1-sign-check-dead, range-lp-error.",
+)
